@@ -1,4 +1,4 @@
-"""C32 — grok rules: the cycle-rejection clause only (recursion guard of alias resolution)."""
+"""C32 — grok rules: the cycle-rejection clause (recursion guard of alias resolution) and exactness of the numeric filters' float->integer collapse."""
 from facts import op_local, flow_sources
 import cfgq
 
@@ -58,8 +58,11 @@ def run(chk):
         "Decides only the clause 'cyclic alias definitions are rejected when the rule is compiled': R32a in parse_alias the recursive descent "
         "(parse_grok_rule) is dominated by a membership test on context.alias_stack whose positive edge returns Err(CircularDependencyInAliasDefinition) "
         "without recursing and whose negative edge pushes the alias name first; R32b every cycle of the local call graph through the grok rule parser "
-        "passes through parse_alias (the SCC without parse_alias is acyclic), so no recursion bypasses the guard. Undecided: regex construction, capture "
-        "reconstruction, filters (run-time regex behaviour).")
+        "passes through parse_alias (the SCC without parse_alias is acyclic), so no recursion bypasses the guard. R32c (filters clause, numeric "
+        "filters only): every float->integer cast in datadog::grok::grok_filter whose result is kept is dominated by an exactness guard (the "
+        "`(x as i64) as f64 == x` round-trip test, or two ordering comparisons bounding x) - an unguarded `as i64` saturates, so `%{number}` on "
+        "`1e30` would capture i64::MAX instead of the matched number. Undecided: regex construction, capture reconstruction, the other filters "
+        "(run-time regex behaviour).")
     rid = "R32a"
     chk.rule(rid, "parse_alias: membership test on alias_stack guards the recursion; hit => Err, miss => push then recurse", floor=3)
     b = chk.anchor(PARSE_ALIAS, rid)
@@ -128,3 +131,95 @@ def run(chk):
                       "the grok rule parser has a recursive cycle (%s -> %s) that does not pass the alias_stack guard" % edge, detail=d)
     elif len(scc) <= 1:
         chk.fail_closed(rid, "parse_alias is no longer part of a recursive cycle: re-derive the rule")
+
+    rule_r32c(chk)
+
+
+FILTER_MOD = "datadog::grok::grok_filter::"
+
+
+def rule_r32c(chk):
+    from facts import uses_of
+    facts = chk.facts
+    rid = "R32c"
+    chk.rule(rid, "float->integer collapse in grok filters is guarded by an exactness test", floor=1)
+    names = facts.names(lambda n: n.startswith(FILTER_MOD))
+    if not names:
+        chk.fail_closed(rid, "no bodies under %s" % FILTER_MOD)
+        return
+    for n in sorted(names):
+        b = facts.body(n)
+        defs = b.defs()
+
+        def single_def(l):
+            ds = defs.get(l, [])
+            return ds[0] if len(ds) == 1 and ds[0][0] == "stmt" else None
+
+        def is_roundtrip(op):
+            """operand defined by IntToFloat(FloatToInt(_)), through plain moves"""
+            l = op_local(op)
+            for _ in range(6):
+                if l is None:
+                    return False
+                d = single_def(l)
+                if d is None:
+                    return False
+                rv = d[3]["rv"]
+                if rv["k"] == "use":
+                    l = op_local(rv["op"])
+                    continue
+                if rv["k"] == "cast" and rv["ck"] == "IntToFloat":
+                    d2 = single_def(op_local(rv["op"]))
+                    return d2 is not None and d2[3]["rv"]["k"] == "cast" and d2[3]["rv"]["ck"] == "FloatToInt"
+                return False
+            return False
+
+        # guard blocks: switch on a bool computed by an f64 comparison
+        eq_guards, ord_guards = [], []
+        for bi, t in b.iter_terms("switch"):
+            l = op_local(t["op"])
+            d = single_def(l) if l is not None else None
+            if d is None:
+                continue
+            rv = d[3]["rv"]
+            if rv["k"] == "binop" and rv.get("tya") == "f64":
+                if rv["op"] == "Eq" and (is_roundtrip(rv["a"]) or is_roundtrip(rv["b"])):
+                    eq_guards.append(bi)
+                elif rv["op"] in ("Lt", "Le", "Gt", "Ge"):
+                    ord_guards.append(bi)
+        for bi, si, st in b.iter_stmts():
+            rv = st["rv"]
+            if not (rv["k"] == "cast" and rv["ck"] == "FloatToInt" and rv.get("from") in ("f64", "f32")):
+                continue
+            dest = st["d"]["l"]
+            us = uses_of(b, dest)
+            if us and all(u[0] == "stmt" and u[3]["rv"]["k"] == "cast" and u[3]["rv"]["ck"] == "IntToFloat" for u in us):
+                continue  # the round-trip probe itself
+            # only the collapse of an existing Value::Float (operand read out of the NotNan payload) is armed; a cast of a freshly parsed f64
+            # (integerExt: `parse::<f64>().map(|f| f as i64)`) is the filter's declared truncating conversion, not a collapse
+            src, from_value = op_local(rv["op"]), False
+            for _ in range(6):
+                ds = defs.get(src, []) if src is not None else []
+                if len(ds) != 1:
+                    break
+                if ds[0][0] == "call":
+                    cal = (ds[0][3].get("rfn_full") or "") + " " + (b.callee(ds[0][3]) or "")
+                    from_value = "NotNan" in cal and "into_inner" in cal
+                    break
+                r2 = ds[0][3]["rv"]
+                if r2["k"] != "use":
+                    break
+                src = op_local(r2["op"])
+            if not from_value:
+                chk.extra.setdefault("r32c_truncating_casts_unarmed", []).append({"function": n, "line": st.get("ln")})
+                continue
+            g_eq = [g for g in eq_guards if g != bi and b.dominates(g, bi)]
+            g_ord = [g for g in ord_guards if g != bi and b.dominates(g, bi)]
+            ok = bool(g_eq) or len(g_ord) >= 2
+            d = {"function": n, "line": st.get("ln"), "to": rv.get("to"), "roundtrip_guards": len(g_eq), "ordering_guards": len(g_ord)}
+            chk.instance(rid, d, ok=ok)
+            if not ok:
+                chk.violation(rid, b.file, n, "unguarded float->%s cast" % rv.get("to"),
+                              "%s:%s casts a float to %s and keeps the result without a dominating exactness test (`(x as i64) as f64 == x` or a range check): "
+                              "`as` saturates, so a numeric grok filter applied to e.g. `1e30` yields i64::MAX instead of the matched number"
+                              % (b.file, st.get("ln"), rv.get("to")), detail=d)
